@@ -44,7 +44,21 @@ fn strings_full() -> Vec<String> {
     for t in ["\u{0}", "ab\u{0}", "\u{0}ab", " ab ", "\t", "a\n", "\u{0}\u{0}\t", "\u{feff}a"] {
         v.push(t.to_string());
     }
+    v.extend(straddlers());
     v
+}
+
+/// Long non-ASCII text in which EVERY byte offset that is not a multiple of 4 (first string), respectively
+/// every offset that is not 1 mod 4 (second, shifted by one ASCII byte), lies inside a 4-byte character: any
+/// fixed-size buffering, truncation or validation step (255, 256, 1024, 4096, 65535 ...) cuts a character in one
+/// of the two.  Lengths: just above 4 KiB, and at the 65,535-byte limit.
+pub fn straddlers() -> Vec<String> {
+    let g = "\u{1D11E}";
+    vec![
+        g.repeat(1100), format!("a{}", g.repeat(1100)), format!("ab{}", g.repeat(1100)), format!("abc{}", g.repeat(1100)),
+        format!("{}abc", g.repeat(16383)), format!("a{}ab", g.repeat(16383)),
+        "\u{20AC}".repeat(1400), format!("a{}", "\u{e9}".repeat(2100)),
+    ]
 }
 
 fn names_full() -> Vec<String> {
@@ -60,6 +74,7 @@ fn names_full() -> Vec<String> {
     }
     // a name whose ninth byte is a tab and whose length has 09 as its high byte
     v.push(format!("nnnnnnnn\t{}", "n".repeat(0x0900 + 20)));
+    v.extend(straddlers());
     v
 }
 
@@ -144,6 +159,26 @@ pub fn forests(thorough: bool) -> (Vec<Vec<V>>, Value) {
             // two levels of wide objects: n objects of n arrays each would be large; use n x 70
             values.push(V::Obj((0..n).map(|i| (format!("w{}", i), V::Obj((0..70).map(|j| (format!("v{}", j), V::Arr(vec![V::Bool(j % 2 == 0)]))).collect()))).collect()));
         }
+    }
+    // deep nests up to the decoder's documented limit of 128 levels: uniform, alternating, and a run of one kind
+    // below a short prefix of another (a depth counter that advances by two per object level refuses 65 objects)
+    for d in [20usize, 63, 64, 65, 100, 126, 127, 128] {
+        let nest = |pattern: &[u8], depth: usize| -> V {
+            let mut v = V::Str("core".into());
+            for i in (0..depth).rev() {
+                v = match pattern[i % pattern.len()] {
+                    b'A' => V::Arr(vec![v]),
+                    _ => V::Obj(vec![("k".into(), v)]),
+                };
+            }
+            v
+        };
+        values.push(nest(b"A", d));
+        values.push(nest(b"O", d));
+        values.push(nest(b"AO", d));
+        values.push(nest(b"OOA", d));
+        values.push(V::Arr(vec![nest(b"O", d - 1), num(d as f64)]));
+        values.push(V::Obj(vec![("first".into(), V::Null), ("deep".into(), nest(b"A", d - 1))]));
     }
     // representative level-1 composites used as children at level 2
     let l1s: Vec<V> = vec![
